@@ -17,7 +17,8 @@ def main():
     base = json.load(open("/root/.vp/BASELINE.json"))
     stable = set(base["stable_pass"])
     if not os.path.exists(os.path.join(BUILD, "build.ninja")):
-        subprocess.check_call(["cmake", "-G", "Ninja", "-B", BUILD, "-S", REPO, "-DBUILD_UNITTEST=ON"])
+        subprocess.check_call(["cmake", "-G", "Ninja", "-B", BUILD, "-S", REPO, "-DBUILD_UNITTEST=ON", "-DCMAKE_BUILD_TYPE=RelWithDebInfo", "-DCMAKE_CXX_FLAGS=-Wno-error",
+                               "-DFETCHCONTENT_SOURCE_DIR_GOOGLETEST=/usr/src/googletest"], stdout=subprocess.DEVNULL)
     r = subprocess.run(["cmake", "--build", BUILD], stdout=subprocess.PIPE, stderr=subprocess.STDOUT, text=True)
     if r.returncode != 0:
         print(r.stdout[-4000:])
